@@ -523,18 +523,8 @@ def closure_with(cx, prefix, capture):
 
 
 def r09_6(cx):
-    one = closure_with(cx, 'dfa::Builder::finish_build_one_start', 'anchored')
-    ag = bool_gates(one, lambda x: is_call(x, r'Anchored::is_anchored$'))
-    fg = bool_gates(one, lambda x: eq_cond(x) is not None and any('NFA::FAIL' in tstr(s0) for s0 in eq_cond(x)[:2]))
-    nx = [bi for bi, t in one.calls(r'NFA::next_state$|Automaton::next_state$')]
-    ok = bool(ag) and bool(fg) and bool(nx) and not reachable_without(one, nx, [e for g in ag for e in g[3]])
-    dead_on_anchored = False
-    for g in ag:
-        for _, tg in g[2]:
-            first = [one.rvalue_term(st['r'], 0, tg) for st in one.blocks[tg]['stmts'] if st['k'] == 'assign' and one.locals[st['p']['l']]['names'] == ['oldnextsid']]
-            if first and all(is_named_const(v, r'NFA::DEAD$') for v in first):
-                dead_on_anchored = True
-    cx.report('R09.6', one, 'one-start-anchored', ok and dead_on_anchored, 'in an anchored DFA a FAIL transition becomes DEAD and failure links are never followed' if ok and dead_on_anchored else 'the anchored DFA follows failure links or does not map FAIL to DEAD')
+    from rules.dfabuild import r_one_start_closure
+    r_one_start_closure(cx, ids=('R09.6',))
     both = closure_with(cx, 'dfa::Builder::finish_build_both_starts', 'anewsid')
     fg = bool_gates(both, lambda x: eq_cond(x) is not None and any('NFA::FAIL' in tstr(s0) for s0 in eq_cond(x)[:2]))
     st = [(bi, tstr(tt, 200), v) for bi, si, tt, v, s in both.field_stores()]
